@@ -53,45 +53,45 @@ DERIVE_RULE = ("generated Rust declarations deriving TypeInfo and Encode (harnes
 PROPS = {
     'C12': dict(
         streams=[
-            dict(name='interner', quick=2000, thorough=20000),
-            dict(name='builder', quick=600, thorough=6000),
+            dict(name='interner', quick=2000, thorough=200000),
+            dict(name='builder', quick=600, thorough=60000),
         ],
         rule="random op sequences (interner: <=60/200 ops over alphabets of 2..30 values, out-of-range resolve through a symbol of a second interner; builder: <=25/60 ops over Type<PortableForm> values incl. duplicates after unrelated insertions, self references through next_type_id, wild ids); thorough adds every interner sequence of length <=5 over {intern,get,resolve}x{0,1,2}+elements (exhaustive). A case is non-trivial when at least one operation returned an existing index (a duplicate arrived); distinct = distinct case lines.",
         trusted_base=COMMON_TB,
         assumptions=["Ord on interned values is consistent with Eq (derived impls)", "Symbol ids fit usize/u32 (tables < 2^32 entries)"],
     ),
     'C18': dict(
-        streams=[dict(name='path', quick=4000, thorough=40000)],
+        streams=[dict(name='path', quick=4000, thorough=400000)],
         rule="exhaustive: every single-segment string of length <=4 (quick) / <=6 (thorough) over the class-representative alphabet {a,Z,_,7,r,#,:,space,e-acute} through Path::from_segments; plus random segment lists, module paths (separators ::, :, :::) and replacement tables (0-3 rows, overlapping rows) through Path::new / new_with_replace with panics caught; accessors ident/namespace/Display observed on every constructed path. Non-trivial: the case reaches identifier validation (not the empty list).",
         trusted_base=COMMON_TB,
         assumptions=["str::split(\"::\"), strip_prefix, is_ascii behave as their documentation says (modelled in SIM.Model.Path)"],
     ),
     'C06': dict(
         translators=['extract_codec_tags.py'],
-        streams=[dict(name='codec', quick=1500, thorough=15000, filter=only('C06:'))],
+        streams=[dict(name='codec', quick=1500, thorough=100000, filter=only('C06:'))],
         rule=CODEC_RULE,
         trusted_base=COMMON_TB + ["parity-scale-codec 3.7.5 is the party being compared with (its derive output for the scale-info types and its Compact/Vec/String/Option impls are modelled in SIM.Model.Codec)"],
         assumptions=["the layout in the property statement is what SIM.Model.Codec.encode/decode transcribe"],
     ),
     'C07': dict(
-        streams=[dict(name='codec', quick=1500, thorough=15000, filter=only('C07:'))],
+        streams=[dict(name='codec', quick=1500, thorough=100000, filter=only('C07:'))],
         rule=CODEC_RULE + " C07 clauses: library decode(encode(r))==r with nothing left over, encode twice equal, no two distinct generated registries share bytes (hash map over the run).",
         trusted_base=COMMON_TB,
         assumptions=["Bounded (ids/lengths < 2^32, indices < 256, strings valid UTF-8) is exactly what the Rust types can hold"],
     ),
     'C14': dict(
-        streams=[dict(name='codec', quick=1500, thorough=15000, filter=only('C14:')),
-                 dict(name='json', quick=500, thorough=5000, filter=only('C14:'))],
+        streams=[dict(name='codec', quick=1500, thorough=100000, filter=only('C14:')),
+                 dict(name='json', quick=500, thorough=40000, filter=only('C14:'))],
         rule=CODEC_RULE + " C14 clauses on dec cases: no panic (catch_unwind; an abort kills the harness and is reported as CRASH), peak allocation <= 1024*len + 131072 bytes (counting allocator), an accepted input re-encodes to exactly the consumed bytes (library and layout encoder), resolve(len), resolve(len+7), resolve(u32::MAX) answer None.",
         trusted_base=COMMON_TB + ["never panics / never aborts / memory proportional to input are run-time facts observed on the generated inputs, not proved"],
         assumptions=["allocation bound constants 1024 and 131072 (the codec pre-allocates up to 16 KiB regardless of input)"],
     ),
     'C01': dict(
         streams=[
-            dict(name='registry', quick=500, thorough=6000, filter=only('C01:')),
-            dict(name='builder', quick=400, thorough=4000, filter=only('C01 ')),
-            dict(name='retain', quick=800, thorough=10000, filter=only('C01:'), timeout=900),
-            dict(name='codec', quick=600, thorough=6000, filter=only('C01:')),
+            dict(name='registry', quick=500, thorough=40000, filter=only('C01:')),
+            dict(name='builder', quick=400, thorough=40000, filter=only('C01 ')),
+            dict(name='retain', quick=800, thorough=100000, filter=only('C01:'), timeout=1800),
+            dict(name='codec', quick=600, thorough=40000, filter=only('C01:')),
         ],
         rule=REGISTRY_RULE + " Also: builder histories (closed and not closed over next_type_id), retain on well-formed registries with random filters, decode(encode(r)) of well-formed registries. C01 oracle = Spec.wf (dense and closed) on every registry the implementation produced: after every operation (Registry::types()), PortableRegistry::from, builder finish, retain result, decoded registry.",
         trusted_base=COMMON_TB,
@@ -99,60 +99,60 @@ PROPS = {
                      "builder closure is relative to the caller: proved and checked under 'every registered reference is below next_type_id at finish'"],
     ),
     'C02': dict(
-        streams=[dict(name='registry', quick=800, thorough=8000, filter=only('C02:')),
-                 dict(name='stdall', pg=True, mode='stdall', gen='gen_std.py', quick=120, thorough=900, filter=only('C02:'))],
+        streams=[dict(name='registry', quick=800, thorough=60000, filter=only('C02:')),
+                 dict(name='stdall', pg=True, mode='stdall', gen='gen_std.py', quick=120, thorough=2500, filter=only('C02:'))],
         rule=REGISTRY_RULE + " C02 oracle: rooted isomorphism (Spec.iso) between the generated type graph and the final registry starting from (identity, returned id) pairs: same path/params/fields/variants/indices/docs/lengths at every node, references corresponding, functional and injective; map_into_portable output = input fields with only references replaced.",
         trusted_base=COMMON_TB,
         assumptions=["TypeId is an injective name of a type (identities modelled as Nat)"],
     ),
     'C05': dict(
-        streams=[dict(name='registry', quick=800, thorough=8000, filter=only('C05:')),
-                 dict(name='meta', pg=True, mode='meta', quick=60, thorough=400, filter=only('C05:')),
-                 dict(name='stdall', pg=True, mode='stdall', gen='gen_std.py', quick=60, thorough=400, filter=only('C05:'))],
+        streams=[dict(name='registry', quick=800, thorough=60000, filter=only('C05:')),
+                 dict(name='meta', pg=True, mode='meta', quick=60, thorough=700, filter=only('C05:')),
+                 dict(name='stdall', pg=True, mode='stdall', gen='gen_std.py', quick=60, thorough=700, filter=only('C05:'))],
         rule=REGISTRY_RULE + " C05 oracle: registry length = number of identities reachable from the registered roots (Spec.reach); per-node type_info() evaluation counters (harness-side) are 1 exactly for reachable identities and never above 1; re-registering present roots (through any alias, with repetition and interleaving) leaves Registry::types() unchanged; alias nodes (same Identity, different fn pointer) get the id of their target.",
         trusted_base=COMMON_TB,
         assumptions=["aliases of built-in std types (Box/Rc/Arc/&/Vec/VecDeque/slice/String/str/PhantomData) are covered by the meta stream of C16; here aliasing is exercised through the harness's Alias<N,K> family and the real PhantomData identity"],
     ),
     'C10': dict(
-        streams=[dict(name='retain', quick=1500, thorough=20000, filter=only('C10:'), timeout=900)],
+        streams=[dict(name='retain', quick=1500, thorough=300000, filter=only('C10:'), timeout=3600)],
         rule="well-formed registries of 0..40 (thorough 64) entries, either uniformly random references or structured (local references: chains, small cycles, self loops; entries reachable only through a type parameter; skipped parameters before real ones), all eight definition kinds, x filters (empty, full, singleton, last, random 25%); the real retain under catch_unwind, its input flushed before the call so a hang is attributed. Oracle Spec.retainOk: result well-formed, keys = reachable set, bijection onto new ids, each entry = original with references mapped. Non-trivial: returned map has more than one entry.",
         trusted_base=COMMON_TB,
         assumptions=["the filter is a pure predicate (FnMut state not modelled)"],
     ),
     'C11': dict(
-        streams=[dict(name='registry', quick=800, thorough=8000, filter=only('C11:')),
-                 dict(name='stdall', pg=True, mode='stdall', gen='gen_std.py', quick=120, thorough=900, filter=only('C11:'))],
+        streams=[dict(name='registry', quick=800, thorough=60000, filter=only('C11:')),
+                 dict(name='stdall', pg=True, mode='stdall', gen='gen_std.py', quick=120, thorough=2500, filter=only('C11:'))],
         rule=REGISTRY_RULE + " C11 oracle: every Registry::types() snapshot contains the previous one unchanged; the same history replayed gives byte-identical encode(); the distinct roots registered one by one in history order, in 3 (thorough 5) random permutations and reversed give registries of the same size that are rooted-isomorphic (Spec.iso from the returned ids) to the original.",
         trusted_base=COMMON_TB,
         assumptions=["TypeId ordering plays no role (BTreeMap<TypeId,_> is only looked up, never iterated)"],
     ),
     'C08': dict(
         translators=['extract_serde_attrs.py'],
-        streams=[dict(name='json', quick=800, thorough=8000, filter=only('C08:'))],
+        streams=[dict(name='json', quick=800, thorough=60000, filter=only('C08:'))],
         rule="generated registries (arbitrary and well-formed, every definition kind, optional parts present and absent, empty/long/multi-byte strings) through the real serde_json::to_value (ser cases: shape predicate, library round trip through Value and through text, independent reader) and 5 (thorough 10) structural mutations of each document (member removed/added/renamed incl. type_name, bitSequence, unknown keys; null; numbers at 255/256/2^32-1/2^32, negative, fractional; strings; arrays dropped/duplicated; object replaced by positional array) plus 18 hand-written documents (optional members omitted / explicitly empty / null) through the real from_value under catch_unwind, compared with the model reader. Inputs using serde's positional-array form of structs or the {\"bool\": null} form of unit variants are UNMODELLED (counted).",
         trusted_base=COMMON_TB + ["serde / serde_json 1.0 are modelled (SIM.Model.Json), tied by the differential runs only"],
         assumptions=["key order of JSON objects is not part of the property (canonicalised by sorting)",
                      "the payload of 'bitsequence' carries bit_store_type / bit_order_type (Rust field names), accepted by the shape predicate there and nowhere else"],
     ),
     'C17': dict(
-        streams=[dict(name='build', quick=3000, thorough=30000, also_docs=True)],
+        streams=[dict(name='build', quick=3000, thorough=300000, also_docs=True)],
         rule="random builder programs executed on the real typestate builders, MetaForm (types Node<0..7>, PhantomData<u8> / PhantomData<Node<1>> as member types, compact::<u8|u32|u128>()) and PortableForm (arbitrary u32 ids): type-level setters before and after .path(..) (type_params, docs, docs_always / docs_portable, repeated: last wins), composite with unit / named / unnamed fields (0-4 field builders, name and type set in either order, type_name and docs setters before, between and after), variants (0-3, index at a random position, discriminant, fields set repeatedly), plus TypeDefTuple::new over lists with PhantomData members and From<TypeDef> for Type; each program run by a harness built WITHOUT and WITH scale-info's docs feature. Non-trivial: result has a reference or docs; distinct = distinct case lines.",
         trusted_base=COMMON_TB,
         assumptions=["typestate-invalid programs cannot be expressed (rustc rejects them: C20)",
                      "the PhantomData clause for the derive and the built-in impls is checked with C09/C04's corpora (scan for phantom members), see DESIGN.md"],
     ),
     'C16': dict(
-        streams=[dict(name='meta', pg=True, mode='meta', quick=60, thorough=400, filter=only('C16:')),
-                 dict(name='tinfo', pg=True, mode='tinfo', quick=60, thorough=400, filter=only('C16:')),
-                 dict(name='stdall', pg=True, mode='stdall', gen='gen_std.py', quick=60, thorough=400, filter=only('C16:'))],
+        streams=[dict(name='meta', pg=True, mode='meta', quick=60, thorough=700, filter=only('C16:')),
+                 dict(name='tinfo', pg=True, mode='tinfo', quick=60, thorough=700, filter=only('C16:')),
+                 dict(name='stdall', pg=True, mode='stdall', gen='gen_std.py', quick=60, thorough=700, filter=only('C16:'))],
         rule=META_RULE,
         trusted_base=COMMON_TB + ["rustc's TypeId is an injective name of a type; the corpus is a generated Rust program compiled against /repo on every run"],
         assumptions=["pairs are drawn from a finite generated corpus (closed under sub-expressions); the theorems quantify over all type expressions of the modelled grammar"],
     ),
     'C04': dict(
-        streams=[dict(name='std', pg=True, mode='std', gen='gen_std.py', quick=120, thorough=900, filter=only('C04:'), also_docs=True),
-                 dict(name='tinfo', pg=True, mode='tinfo', gen='gen_std.py', quick=120, thorough=900, filter=only('C04:')),
-                 dict(name='stdall', pg=True, mode='stdall', gen='gen_std.py', quick=120, thorough=900, filter=only('C04:'))],
+        streams=[dict(name='std', pg=True, mode='std', gen='gen_std.py', quick=120, thorough=2500, filter=only('C04:'), also_docs=True),
+                 dict(name='tinfo', pg=True, mode='tinfo', gen='gen_std.py', quick=120, thorough=2500, filter=only('C04:')),
+                 dict(name='stdall', pg=True, mode='stdall', gen='gen_std.py', quick=120, thorough=2500, filter=only('C04:'))],
         rule=STD_RULE,
         trusted_base=COMMON_TB + ["parity-scale-codec 3.7.5's Encode impls for std types are modelled by SIM.Value.encode + Spec.ValOf and tied by comparing bytes on every generated value",
                                   "the python generator harness/gen/texpr.py writes, for each Rust value expression, the Val it denotes (mirror of Spec.ValOf)"],
@@ -161,7 +161,7 @@ PROPS = {
     'C19': dict(
         custom='c19', translators=['extract_serde_attrs.py'], extra_targets=['SIM.Props.C08serde'],
         streams=[],
-        n=dict(quick=400, thorough=6000),
+        n=dict(quick=400, thorough=40000),
         rule="generated registries (arbitrary and well-formed, every definition kind incl. variants with no variants and composites with no fields, optional parts present and absent) serialised by the real serde impl in a harness built with scale-info's schema feature; each document is validated against the REAL generated schema by python jsonschema (reference) and by the Lean validator on the translated schema; 3 structural mutations per document (member removed/added/renamed, null, wrong-typed, arrays edited) compare the two validators. Non-trivial: non-empty registry / a mutated document the schema rejects.",
         trusted_base=COMMON_TB + ["schemars 0.8 generates the schema (run, not modelled); the translator translators/schema_to_lean.py (rejects any keyword outside the modelled subset)",
                                   "JSON-Schema draft-07 semantics as modelled in SIM.Model.Schema, cross-checked against python jsonschema on every generated and mutated document"],
@@ -169,7 +169,7 @@ PROPS = {
     ),
     'C09': dict(
         translators=['extract_clean_pairs.py'],
-        streams=[dict(name='derive', pg=True, mode='derive', gen='gen_derive.py', quick=60, thorough=400, filter=only('C09:'), also_docs=True)],
+        streams=[dict(name='derive', pg=True, mode='derive', gen='gen_derive.py', quick=60, thorough=1200, filter=only('C09:'), also_docs=True)],
         rule=DERIVE_RULE,
         trusted_base=COMMON_TB + ["rustc, the macro expander and proc_macro2's token printer are outside the model (the type name is compared up to whitespace, which is what clean_spaces + extracted_pairs_ok justify)",
                                   "translators/extract_clean_pairs.py re-extracts the .replace chain of clean_type_string from /repo/derive/src/lib.rs on every run (fails on anything but a chain of literal pairs)",
@@ -177,7 +177,7 @@ PROPS = {
         assumptions=["the supported grammar is the generator's (structs/enums; named/unnamed/unit; 0-2 type parameters, optional lifetime; nested modules incl. raw identifiers; codec skip/compact/index/encoded_as, explicit discriminants; scale_info rename/skip_type_params/capture_docs/replace_segment; doc attributes)"],
     ),
     'C03': dict(
-        streams=[dict(name='derive', pg=True, mode='derive', gen='gen_derive.py', quick=60, thorough=400, filter=only('C03:'))],
+        streams=[dict(name='derive', pg=True, mode='derive', gen='gen_derive.py', quick=60, thorough=1200, filter=only('C03:'))],
         rule=DERIVE_RULE + " C03 oracle: SIM.Value.decodeVal run on the REAL registry and the REAL bytes of each value must return exactly the expected value (variant name and index, field names, order, leaves) and no remainder; for enums the first byte must be the variant index of the metadata. Values: integer leaves at compact-class boundaries and extremes, both signs, collections of 0-3 elements, recursion through Option<Box<Self>> / Vec<Self> to depth 3.",
         trusted_base=COMMON_TB + ["parity-scale-codec-derive 3.7.5 (field order, skip, compact, index rules) is modelled by Spec.ValOfD / FieldValsD + Value.encode and tied by comparing bytes on every generated value",
                                   "harness/gen/gen_derive.py writes, for each Rust value expression, the Val it denotes"],
@@ -185,19 +185,19 @@ PROPS = {
                      "indices of non-skipped variants are pairwise distinct (the codec derive rejects anything else at compile time)"],
     ),
     'C20': dict(
-        custom='neg', streams=[], classes='bld,attr', n=dict(quick=160, thorough=1500), filter=only('C20:'),
+        custom='neg', streams=[], classes='bld,attr', n=dict(quick=160, thorough=5000), filter=only('C20:'),
         rule="generated programs, each its own cargo bin target (compiled on its own): (bld) builder chains in MetaForm and PortableForm - a valid chain (type-level setters around .path, composite with unit/named/unnamed field builders with name/ty/type_name/docs in any order, variants with index/discriminant/docs/fields) or ONE mutation of it: path dropped or repeated, terminal dropped/moved/repeated, field kind swapped (named<->unnamed, ->unit), ty dropped or repeated, name added/dropped/repeated, index dropped or repeated; (attr) #[derive(TypeInfo)] on a struct with 0-2 parameters (inline TypeInfo bounds, so only the derive can reject) or a union, with attribute lists drawn from bounds / skip_type_params / capture_docs (valid values in several spellings, invalid ones) / crate / replace_segment / unknown keys, duplicated inside one attribute or across two, and bounds leaving a non-skipped parameter out (also after a skipped one). rustc's verdict per program vs Typestate.accepts / deriveAccepts. Non-trivial: a rejected program.",
         trusted_base=COMMON_TB + ["rustc is the judge; the typestate automaton and the attribute validator are read off src/build.rs and derive/src/attr.rs and tied only by these verdicts"],
         assumptions=["TypeBuilder::<_, PathAssigned>::default() compiles and panics at run time (no ill-formed value results): outside the negative grammar, see DESIGN.md §6"],
     ),
     'C13': dict(
-        custom='neg', streams=[], classes='gen', n=dict(quick=120, thorough=1200), filter=only('C13:'),
+        custom='neg', streams=[], classes='gen', n=dict(quick=120, thorough=4000), filter=only('C13:'),
         rule="generated generic declarations (struct or enum, 1-2 type parameters used directly, in Vec/Option/tuple/Box/BTreeMap, in PhantomData, through an associated type T::A, in self-referential positions, in helper generic types with and without TypeInfo; optional lifetime, const parameter, default, where-clause; skip_type_params, #[codec(skip)], #[codec(compact)], explicit bounds) each with ONE instantiation drawn from types with type info (u8, u32, String, Wrapper<u8>, Option<bool>, Good), without (NoInfo, Vec<NoInfo>), and trait impls whose associated type has / lacks type info; each program (declaration + `meta_type::<S<..>>()`) compiled on its own. Oracle: if the non-skipped parameters and the encoded members' types have type info (Spec.usableSpec) the program must compile. Correspondence: rustc's verdict = all predicates of the modelled where-clause hold (Bounds.usable).",
         trusted_base=COMMON_TB + ["rustc's trait solver is the judge; Bounds.hasInfo models which helper/built-in types implement TypeInfo"],
         assumptions=["self references are written with the bare identifier except in the flagged qualified-self cases (KNOWN-FINDING)"],
     ),
     'C15': dict(
-        custom='c15', streams=[], n=dict(quick=40, thorough=200), filter=only('C15:'),
+        custom='c15', streams=[], n=dict(quick=40, thorough=500), filter=only('C15:'),
         rule="a fingerprint program over a generated corpus (built-in type expressions without BitVec + generated derived declarations with docs, attributes, generics; closed under sub-expressions) is built once per feature set of scale-info (quick: 9 sets covering std/no_std, serde, decode, bit-vec, schema, docs; thorough: all 64 subsets of {std, serde, decode, bit-vec, schema, docs}); per corpus type and for all types together the SCALE bytes of the PortableRegistry must be identical across every set without docs and across every set with docs, and the two groups must decode (V14 layout decoder) to registries that are equal once documentation strings are removed. Non-trivial: a registry with more than one entry / a docs pair that actually differs.",
         trusted_base=COMMON_TB + ["cargo feature resolution; the theorem covers the model's feature-dependent points (docs gating in builders, derive and PhantomData impl); that the crate has no OTHER cfg-dependent behaviour is observed one build per configuration"],
         assumptions=["types that exist only with a feature (BitVec) are outside the common corpus"],
